@@ -35,7 +35,7 @@ CLAIMS = {
          "skill process/eval stubbed; inductive base case (new establishes the invariant) not proved"),
  "C16": ("other", "Partial, bounded: the open section's peak is always appended before export or aggregation (so all skills report the same number of sections), strains and difficulty are computed on the same conversion (call-site contract), StrainsVec iter/sum/retain/transmute equal the plain list for <= 3 pushes. The decay-weighted aggregation itself (std sort) and finiteness of peaks are not covered.", "DESIGN.md §5 C16",
          "difficulty_value (sort) did not finish and is not claimed; peaks' finiteness is float pipeline"),
- "C17": ("proof", "Partial: CS/HP given with with_mods=true are reported back unchanged for all mods and clock rates (proof); ok/meh windows exist exactly per mode (proof); HR never lowers / EZ never raises an attribute on [0,10] (proof); with_mods values give clock-rate independent windows (bounded grid); the osu! and catch difficulty setups store the builder's AR/HP/hit windows unchanged (call-site proofs); monotonicity of all six window tables over the f32 input domain (thorough tier). build()/hit_windows() float agreement and the AR/OD round trip are not claimed.", "DESIGN.md §5 C17",
+ "C17": ("proof", "Partial: CS/HP given with with_mods=true are reported back unchanged for all mods and clock rates (proof); ok/meh windows exist exactly per mode (proof); HR never lowers / EZ never raises an attribute on [0,10] (proof); with_mods values give clock-rate independent windows (bounded grid); the osu! and catch difficulty setups store the builder's AR/HP/hit windows unchanged (call-site proofs); monotonicity of the five OD window tables over the f32 input domain (thorough tier; the AR table does not finish). build()/hit_windows() float agreement and the AR/OD round trip are not claimed.", "DESIGN.md §5 C17",
          "legacy mods; round trip and 1/clock_rate scaling are float identities the solver does not finish"),
  "C18": ("proof", "Complete loop-free Kani proofs: every Performance setter equals the same setter applied to the Difficulty (or is the identity where documented irrelevant) in all four modes; Difficulty survives inspect()/into_difficulty() field-wise (clock rate bit-exact); clamps to documented bounds for all f32/f64 bit patterns.", "DESIGN.md §5 C18",
          "mods = GameMods::Legacy(bits); NaN attribute overrides excluded (PartialEq not reflexive); builders created from default attributes"),
